@@ -33,7 +33,10 @@ def run_common(ctx, prop_file, theorem_names):
     if ok_build:
         cdir = os.path.join(ctx.out, "corpus")
         n = corpus.sierra_corpus(cdir)
-        ctx.log("extracted %d Sierra programs from /repo" % n)
+        n_extra = corpus.extra_sierra_corpus(cdir)
+        n_neg = corpus.negative_sierra_templates(cdir)
+        ctx.log("extracted %d Sierra programs from /repo, %d extra corpus programs, %d negative templates"
+                % (n, n_extra, n_neg))
         vlib.clean_dir(cases)
         rc, out = vlib.run([vlib.harness_bin("h15"), cdir, cases, ctx.tier], timeout=3000)
         if rc != 0 or not os.path.exists(os.path.join(cases, "summary.json")):
